@@ -51,7 +51,7 @@ Definition cfg_gen (front : N) (nd : option N) : rcfg :=
   then RCfg ReceiveGen.v1_catch_lp ReceiveGen.v1_catch_nack ReceiveGen.v1_catch_interest ReceiveGen.v1_catch_data ReceiveGen.v1_frag_guard ReceiveGen.v1_catch_fragtl nd
   else RCfg ReceiveGen.v2_catch_lp ReceiveGen.v2_catch_nack ReceiveGen.v2_catch_interest ReceiveGen.v2_catch_data ReceiveGen.v2_frag_guard ReceiveGen.v2_catch_fragtl nd.
 Definition tuple_orig : list err := [EDecode; EType; EValue; EStruct].
-Definition cfg_orig : rcfg := RCfg tuple_orig tuple_orig tuple_orig tuple_orig false [] None.
+Definition cfg_orig : rcfg := RCfg tuple_orig tuple_orig tuple_orig tuple_orig 0 [] None.
 
 Definition run (req : sexp) : sexp :=
   match req with
@@ -76,7 +76,7 @@ Definition run (req : sexp) : sexp :=
   (* (6): what the translator read from the source *)
   | SList [SNum 6] =>
       SList [s_bool (catch_incomplete run_cfg_gen); s_bool (catch_reset run_cfg_gen); s_bool ReceiveGen.run_spawns_task;
-             s_bool ReceiveGen.udp_guarded; s_bool ReceiveGen.v1_frag_guard; s_bool ReceiveGen.v2_frag_guard;
+             s_bool ReceiveGen.udp_guarded; SNum ReceiveGen.v1_frag_guard; SNum ReceiveGen.v2_frag_guard;
              s_list (fun e => SNum (err_code e)) ReceiveGen.v1_catch_lp; s_list (fun e => SNum (err_code e)) ReceiveGen.v2_catch_lp]
   | _ => s_bad_request
   end.
